@@ -146,7 +146,7 @@ namespace PV.Chan
 /-! ## counting EOF and CLOSE -/
 
 structure CountInv (s : St) : Prop where
-  eofc : List.countP Msg.isEof s.wire + sumBy TSt.nEof s.thr = s.eofSent.toNat
+  eofc : List.countP Msg.isEof s.wire + sumBy TSt.nEof s.thr ≤ s.eofSent.toNat
   closec : List.countP Msg.isClose s.wire + sumBy TSt.nClose s.thr ≤ s.closed.toNat
   act : s.active = true
   unl : s.linked = false → s.closed = true
@@ -354,6 +354,18 @@ theorem step_count (cfg : Cfg) (s : St) (x : Act) (hi : CountInv s) : CountInv (
            | exact count_same _ t _ _ hr rfl ⟨by simp [TSt.nEof, TSt.held, Msg.isEof],
                by simp [TSt.nClose, TSt.held, Msg.isClose]⟩ (count_congr s _ rfl rfl rfl rfl rfl rfl hi))
   | peerEof => simp only [step]; split <;> first | exact hi | exact count_congr s _ rfl rfl rfl rfl rfl rfl hi
+  | emitFail t =>
+    simp only [step]; split
+    · rename_i m ms k hr
+      obtain ⟨e1, c1, a1, u1⟩ := hi
+      have h1 := sumBy_set TSt.nEof s.thr t _ (.idle .sshError) hr
+      have h2 := sumBy_set TSt.nClose s.thr t _ (.idle .sshError) hr
+      have z1 : (TSt.idle Res.sshError).nEof = 0 := rfl
+      have z2 : (TSt.idle Res.sshError).nClose = 0 := rfl
+      refine ⟨?_, ?_, a1, u1⟩
+      · simp only [setThr]; omega
+      · simp only [setThr]; omega
+    · exact hi
   | unlink =>
     simp only [step]; split
     · exact hi
@@ -559,6 +571,7 @@ theorem step_raced_mono (cfg : Cfg) (s : St) (x : Act) (h : (step cfg s x).raced
         repeat' split
         all_goals exact hr
       | peerEof => simp only [step]; split <;> exact hr
+      | emitFail t => simp only [step]; split <;> exact hr
       | unlink => simp only [step]; split <;> exact hr
       | shutdownRead => exact hr
       | setMode m => exact hr
@@ -707,6 +720,10 @@ theorem step_race (cfg : Cfg) (s : St) (x : Act) (hi : RaceInv s) : RaceInv (ste
            (by intro h; simp [TSt.holdsEnd, TSt.held, Msg.isEnd, Msg.isEof, Msg.isClose] at h)
            (race_congr s _ rfl rfl rfl hi))
   | peerEof => simp only [step]; split <;> first | exact hi | exact race_congr s _ rfl rfl rfl hi
+  | emitFail t =>
+    simp only [step]; split
+    · exact race_setThr _ t _ (by intro h; cases h) (by intro h; cases h) (race_congr s _ rfl rfl rfl hi)
+    · exact hi
   | unlink => simp only [step]; split <;> first | exact hi | exact race_congr s _ rfl rfl rfl hi
   | shutdownRead => exact race_congr s _ rfl rfl rfl hi
   | setMode m => exact race_congr s _ rfl rfl rfl hi
@@ -740,8 +757,8 @@ theorem closeInternal_closed (s : St) (hc : s.closed = true) : closeInternal s =
 theorem sendEof_sent (s : St) (he : s.eofSent = true) : sendEof s = (s, []) := by
   simp [sendEof, he]
 
-theorem dead_step (cfg : Cfg) (s : St) (x : Act) (hc : s.closed = true) (he : s.eofSent = true) :
-    msgTotal (step cfg s x) = msgTotal s := by
+theorem dead_step (cfg : Cfg) (s : St) (x : Act) (hx : ∀ t, x ≠ .emitFail t) (hc : s.closed = true)
+    (he : s.eofSent = true) : msgTotal (step cfg s x) = msgTotal s := by
   have sendpath : ∀ (s' : St) (t want : Nat) (ext : Bool) (lp : Option Loop) (old : TSt),
       s.thr[t]? = some old → old.held = [] → SendOutEff2 cfg s s' t want ext lp → msgTotal s' = msgTotal s := by
     intro s' t want ext lp old hr hold h
@@ -841,11 +858,25 @@ theorem dead_step (cfg : Cfg) (s : St) (x : Act) (hc : s.closed = true) (he : s.
       | (rw [e]; rfl)
       | (rename_i h; rw [e] at h; exact absurd rfl h)
   | peerEof => simp only [step]; split <;> rfl
+  | emitFail t => exact absurd rfl (hx t)
   | unlink => simp only [step, hc, if_true]
   | shutdownRead => rfl
   | setMode m => rfl
   | feed n => rfl
   | adjust n => rfl
+
+/-- … and a failed wire write only drops messages -/
+theorem dead_step_le (cfg : Cfg) (s : St) (x : Act) (hc : s.closed = true) (he : s.eofSent = true) :
+    msgTotal (step cfg s x) ≤ msgTotal s := by
+  by_cases h : ∃ t, x = .emitFail t
+  · obtain ⟨t, rfl⟩ := h
+    simp only [step]; split
+    · rename_i m ms k hr
+      have := sumBy_set TSt.nHeld s.thr t _ (.idle .sshError) hr
+      have z : (TSt.idle Res.sshError).nHeld = 0 := rfl
+      simp only [msgTotal, setThr]; omega
+    · exact Nat.le_refl _
+  · exact Nat.le_of_eq (dead_step cfg s x (fun t e => h ⟨t, e⟩) hc he)
 
 /-- the peer's CLOSE on an open channel: we are closed, released from the transport's map, and the handling
     thread holds our EOF (unless already sent) and our CLOSE -/
